@@ -48,6 +48,7 @@ var oddTemplates = []string{
 	"https://$host$path?x=1", "http://bar.com/*", "http://bar.com/$path/$host", "http://$path/abc", "http://bar.com//$path",
 	"http://bar.com/%41$path", "https://www.$host$path", "http://u:p@bar.com/$path", "http://bar.com/a/$path#frag",
 	"http://bar.com/é/$path", "http://$host$path$path", "http://bar.com/$path$path",
+	"http://$path.bar.com/y", "http://a$pathb.com/$path", "http://$path$host/x$path", // $path inside the host, not as its suffix
 }
 
 var segs = []string{"abc", "a", "b", "c", "foo", "stripme", "a%2Fb", "x%25y", "a%20b", "%C3%A9", "caf%c3%a9", "a+b", "a;b", "p;v=1",
@@ -408,6 +409,168 @@ func main() {
 	}
 	for i := 0; i < run.Scale(250, 5000); i++ {
 		serveOne("serve-self-redirect")
+	}
+
+	// ---------- 3b. histories: several requests through ONE table / ONE target object ----------
+	histHosts := []string{"shop.example.com", "blog.example.org", "foo.com", "FOO.com", "a.b.foo.com", "foo.com:8080"}
+	type hroute struct{ src, tmpl, opts string }
+	histRoutes := func() []hroute {
+		sc := schemes[r.Intn(2)]
+		rs := []hroute{
+			{"/welcome", sc + "://$host/welcome", ""},                                  // $host without $path
+			{"/h", sc + "://www.$host/", ""},                                           // $host without $path, empty path
+			{"/p", sc + "://bar.com/$path", []string{"", "strip=/p", "prepend=/pre"}[r.Intn(3)]}, // $path without $host
+			{"/b", sc + "://$host" + []string{"$path", "/$path", "/bbb$path"}[r.Intn(3)], ""},   // both
+			{"/s", sc + "://bar.com/static?x=1", ""},                                   // neither
+			{"/up", "http://10.0.0.9:80/", "-"},                                        // plain upstream
+		}
+		if r.Intn(2) == 0 { // the catch-all as a $host-only redirect on a glob host
+			rs = append(rs, hroute{"*:80/", sc + "://$host/", ""})
+		} else {
+			rs = append(rs, hroute{"/", sc + "://$host:8443/", ""})
+		}
+		return rs
+	}
+	for i := 0; i < run.Scale(120, 3000); i++ {
+		rs := histRoutes()
+		var lines []string
+		var descs []tdesc
+		for id, hr := range rs {
+			u, err := url.Parse(hr.tmpl)
+			if err != nil {
+				panic(err)
+			}
+			d := tdesc{id: id, tmpl: hr.tmpl, u: u}
+			if hr.opts == "-" {
+				lines = append(lines, fmt.Sprintf("route add svc%d %s %s", id, hr.src, hr.tmpl))
+			} else {
+				opts := "redirect=" + []string{"301", "302", "307", "308"}[r.Intn(4)]
+				if hr.opts != "" {
+					opts += " " + hr.opts
+					kv := strings.SplitN(hr.opts, "=", 2)
+					if kv[0] == "strip" {
+						d.strip = kv[1]
+					} else {
+						d.prepend = kv[1]
+					}
+				}
+				lines = append(lines, fmt.Sprintf("route add svc%d %s %s opts \"%s\"", id, hr.src, hr.tmpl, opts))
+			}
+			descs = append(descs, d)
+		}
+		text := strings.Join(lines, "\n")
+		tbl, err := route.NewTable(bytes.NewBufferString(text))
+		if err != nil {
+			run.Exclude("route table rejected")
+			continue
+		}
+		idOf := map[*route.Target]int{}
+		for _, rts := range tbl {
+			for _, rt := range rts {
+				for _, t := range rt.Targets {
+					var id int
+					fmt.Sscanf(t.Service, "svc%d", &id)
+					descs[id].code = t.RedirectCode
+					idOf[t] = id
+				}
+			}
+		}
+		pick, match := route.Picker["rr"], route.Matcher["prefix"]
+		tr := &countingRT{}
+		p := &proxy.HTTPProxy{Config: config.Proxy{}, Transport: tr, Lookup: func(req *http.Request) *route.Target {
+			return tbl.Lookup(req, "", pick, match, gc, false)
+		}}
+		var steps []string
+		var hist []interface{}
+		bad := false
+		prefixes := []string{"/welcome", "/welcome", "/h", "/p", "/b", "/s", "/up", "", "/other"}
+		n := 3 + r.Intn(6)
+		for k := 0; k < n && !bad; k++ {
+			host := histHosts[r.Intn(len(histHosts))]
+			pre := prefixes[r.Intn(len(prefixes))]
+			if k > 0 && r.Intn(2) == 0 { // revisit the previous route with another host
+				pre = prefixes[0]
+				if r.Intn(2) == 0 {
+					pre = prefixes[2+r.Intn(3)]
+				}
+			}
+			wire := pre
+			if pre != "/welcome" || r.Intn(3) == 0 {
+				wire = randWire(r, pre)
+			}
+			q, ok := mkReq(host, wire, queries[r.Intn(len(queries))], "", false)
+			if !ok {
+				run.Exclude("request line does not parse")
+				continue
+			}
+			var cands []string
+			for _, c := range route.VerifC13Candidates(tbl, httpReq(q), pick, match, gc) {
+				if c == nil {
+					cands = append(cands, vh.None)
+				} else {
+					cands = append(cands, vh.Some(coqTarget(descs[idOf[c]])))
+				}
+			}
+			before := tr.n
+			w := httptest.NewRecorder()
+			panicked, pval := vh.Recover(func() { p.ServeHTTP(w, httpReq(q)) })
+			hits := tr.n - before
+			up := -1
+			if hits > 0 {
+				up = 5 // the only upstream of a history table
+			}
+			_, hasLoc := w.Header()["Location"]
+			resp, ok := coqResp(w.Code, w.Header().Get("Location"), hasLoc, hits, up, panicked, pval)
+			step := map[string]interface{}{"host": q.host, "request": uri(q.wire, q.query), "status": w.Code, "location": w.Header().Get("Location"), "upstream_hits": hits}
+			hist = append(hist, step)
+			if !ok {
+				run.Violation(run.NextID(), fmt.Sprintf("ServeHTTP in a request history ended in an unclassifiable way (status %d, panic %v)", w.Code, pval),
+					map[string]interface{}{"routes": text, "history": hist})
+				bad = true
+				break
+			}
+			steps = append(steps, "("+coqReq(q)+", "+vh.List(cands)+", "+resp+", "+vh.Nat(hits)+")")
+		}
+		if bad || len(steps) == 0 {
+			continue
+		}
+		run.Add("history-one-table", vh.App("CHistory", vh.List(steps)), map[string]interface{}{"routes": text, "history": hist})
+	}
+	// BuildRedirectURL again and again on one target object
+	for i := 0; i < run.Scale(150, 3000); i++ {
+		tmpl := docTmpl()
+		if i%3 == 0 {
+			tmpl = schemes[r.Intn(2)] + "://" + []string{"$host", "www.$host", "$host:8443"}[r.Intn(3)] + []string{"", "/", "/welcome", "/a/b/c?foo=bar"}[r.Intn(4)]
+		}
+		tu, err := url.Parse(tmpl)
+		if err != nil || (tu.Scheme == "" && tu.Host == "") {
+			run.Exclude("template does not parse as a URL")
+			continue
+		}
+		td := tdesc{id: 0, tmpl: tmpl, u: tu, strip: []string{"", "", "/a"}[r.Intn(3)], prepend: []string{"", "", "/pre"}[r.Intn(3)], code: 301}
+		t := &route.Target{URL: tu, StripPath: td.strip, PrependPath: td.prepend, RedirectCode: 301}
+		var steps []string
+		var hist []interface{}
+		for k, n := 0, 3+r.Intn(6); k < n; k++ {
+			q, ok := mkReq(histHosts[r.Intn(len(histHosts))], randWire(r, ""), queries[r.Intn(len(queries))], "", false)
+			if !ok {
+				run.Exclude("request line does not parse")
+				continue
+			}
+			ru := *q.u
+			ru.Host = q.host
+			var str string
+			if pn, v := vh.Recover(func() { t.BuildRedirectURL(&ru); str = t.RedirectURL.String() }); pn {
+				run.Violation(run.NextID(), fmt.Sprintf("BuildRedirectURL panicked: %v", v), tmpl)
+				break
+			}
+			steps = append(steps, "("+coqReq(q)+", "+vh.HxS(str)+")")
+			hist = append(hist, map[string]string{"host": q.host, "request": uri(q.wire, q.query), "location": str})
+		}
+		if len(steps) > 0 {
+			run.Add("build-history-one-target", vh.App("CBuildHistory", coqTarget(td), vh.List(steps)),
+				map[string]interface{}{"template": tmpl, "strip": td.strip, "prepend": td.prepend, "history": hist})
+		}
 	}
 
 	// ---------- 4. two simultaneous requests, forced schedule ----------
